@@ -33,14 +33,17 @@ impl Family for C19Family {
 
     fn total(&self, tier: Tier) -> u64 {
         match tier {
-            Tier::Quick => 12_000,
-            Tier::Thorough => 1_500_000,
+            Tier::Quick => 40_000,
+            Tier::Thorough => 3_000_000,
         }
     }
 
     fn generate(&self, master: u64, index: u64, _tier: Tier) -> Scenario {
         let seed = run_seed(master, "C19", index);
         let mut r = Rng::new(seed);
+        if index % 1500 == 11 {
+            return enumerate_base(master, index, &mut r);
+        }
         let backend = if r.chance(1, 3) { Backend::Memory } else { Backend::Ref };
         let wrap = if r.bool() { Wrap::ArcMutex } else { Wrap::ArcRwLock };
         let mut store = gen_store_cfg(&mut r);
@@ -111,10 +114,54 @@ impl Family for C19Family {
         Scenario { family: "C19".into(), batch: "sched".into(), seed: master, index, body: Body::Ceremony(c) }
     }
 
+    fn expand(&self, base: Scenario, stats: &mut Stats) -> Vec<Scenario> {
+        if base.batch != "enumerate-base" {
+            return vec![base];
+        }
+        // depth-first enumeration of every schedule of this small scenario: run with a prefix,
+        // read back the choice points (chosen, alternatives), advance the last one that has an
+        // untried alternative
+        const CAP: usize = 4000;
+        let mut out = Vec::new();
+        let mut prefix: Vec<u32> = Vec::new();
+        let mut complete = false;
+        loop {
+            let mut s = base.clone();
+            s.batch = "enumerated".into();
+            ceremony_mut(&mut s).schedule = prefix.clone();
+            let rec = crate::world::run_ceremony(ceremony_of(&s));
+            let choices = rec.choices.clone();
+            ceremony_mut(&mut s).schedule = choices.iter().map(|c| c.0).collect();
+            out.push(s);
+            if out.len() >= CAP {
+                break;
+            }
+            match choices.iter().rposition(|(idx, n)| idx + 1 < *n) {
+                Some(i) => {
+                    prefix = choices[..i].iter().map(|c| c.0).collect();
+                    prefix.push(choices[i].0 + 1);
+                }
+                None => {
+                    complete = true;
+                    break;
+                }
+            }
+        }
+        stats.count("enumerated_bases", 1);
+        stats.count("enumerated_interleavings_total", out.len() as u64);
+        if complete {
+            stats.count("enumerated_bases_complete", 1);
+        }
+        out
+    }
+
     fn judge(&self, scn: &Scenario, stats: &mut Stats) -> Vec<Violation> {
         let c = ceremony_of(scn);
         let rec = run_and_measure(c, stats);
         let mut j = Judge::new("C19", scn, &rec);
+        if scn.batch == "enumerated" {
+            stats.count("enumerated_interleavings_judged", 1);
+        }
         for p in ["overlapping_assertions_same_credential", "stale_snapshot_written_back", "register_overlaps_assert", "three_actors"] {
             stats.declare_probe(p);
         }
@@ -230,4 +277,45 @@ impl Family for C19Family {
         let _ = OpResult::SetCounter(true);
         j.out
     }
+}
+
+/// A small two-actor scenario whose schedules are enumerated completely.
+fn enumerate_base(master: u64, index: u64, r: &mut Rng) -> Scenario {
+    let wrap = if r.bool() { Wrap::ArcMutex } else { Wrap::ArcRwLock };
+    let backend = if r.chance(1, 3) { Backend::Memory } else { Backend::Ref };
+    let mut c = ceremony(backend, wrap, StoreCfg { newest_first: false, nomatch_err: false, capability: Capability::Full });
+    c.rng_seed = r.next_u64();
+    c.prelude = gen_prelude(r, 1, Some(true));
+    c.prelude[0].rp_id = "example.com".into();
+    c.prelude[0].hmac = None;
+    let mode = r.below(3);
+    for a in 0..2u64 {
+        let mut actor = gen_actor(r);
+        actor.hmac = HmacCfg::None;
+        actor.id_len = 16;
+        let assert = match mode {
+            0 => true,
+            1 => a == 0,
+            _ => false,
+        };
+        let kind = if assert {
+            let mut s = gen_ga(r, "example.com");
+            s.allow = Some(vec![IdRef::NthOfRp(0)]);
+            s.up = true;
+            s.uv = false;
+            OpKind::GetAssertion(s)
+        } else {
+            let mut s = gen_mc(r, "example.com");
+            s.exclude = None;
+            s.rk = false;
+            s.uv = false;
+            OpKind::MakeCredential(s)
+        };
+        let mut op = plain_op(kind);
+        // one suspension before each store effect and in the user prompt
+        op.yields = vec![1, 0, 1, 1, 0, 1, 0];
+        actor.ops.push(op);
+        c.actors.push(actor);
+    }
+    Scenario { family: "C19".into(), batch: "enumerate-base".into(), seed: master, index, body: Body::Ceremony(c) }
 }
